@@ -447,3 +447,72 @@ def reach_empty_set(ci: int, named: bool, cap: int) -> int:
     post: _ != 0
     """
     return empty_set_check(ci, named, cap)
+
+
+# ------------------------------------------------ any object kind before the origin: ORIGIN still follows the header
+# ob_order permutes four kinds of call; this one takes EVERY add_* method of LogicalFile (found by introspection) and
+# makes it the first (or the only other) call of the logical file, before or after add_origin, named set or not.
+
+import inspect as _inspect
+from dliswriter.file.file import LogicalFile as _LF
+
+ADDERS = sorted(n for (n, f) in _inspect.getmembers(_LF, _inspect.isfunction)
+                if n.startswith('add_') and n not in ('add_origin', 'add_no_format_frame_data'))
+N_ADDERS = len(ADDERS)
+
+
+def origin_first_check(ai, before, named, second_too):
+    df, (lf,) = new_file(1)
+    meth = ADDERS[ai]
+    made = []
+
+    def add_obj(nm):
+        kw = {}
+        if meth == 'add_frame':
+            kw['channels'] = (lf.add_channel('C-' + nm),)
+        if named:
+            kw['set_name'] = 'SN'
+        made.append(getattr(lf, meth)(nm, **kw))
+
+    if before:
+        add_obj('X1')
+    o = add_origin(lf, 'O1')
+    if not before or second_too:
+        add_obj('X2')
+    recs = list(df.generator([[]]))
+    kinds = [set_kind(r) for r in recs]
+    if len(kinds) < 3:
+        return 1
+    if kinds[0] != 'FILE-HEADER':
+        return 2
+    if kinds[1] != 'ORIGIN':
+        return 3                            # something else between the file header and the origin
+    if recs[1].get_all_eflr_items() != [o]:
+        return 4
+    if kinds.count('ORIGIN') != 1 or kinds.count('FILE-HEADER') != 1:
+        return 5
+    # every object made is in exactly one of the remaining sets
+    for it in made:
+        n = 0
+        for r in recs[2:]:
+            if hasattr(r, 'get_all_eflr_items') and it in r.get_all_eflr_items():
+                n = n + 1
+        if n != 1:
+            return 6
+    return 0
+
+
+def ob_origin_first(ai: int, before: bool, named: bool, second_too: bool) -> int:
+    """
+    pre: 0 <= ai < N_ADDERS and ai % SHARD_N == SHARD_I % 4
+    post: _ == 0
+    """
+    return origin_first_check(ai, before, named, second_too)
+
+
+def reach_origin_first(ai: int, before: bool, named: bool, second_too: bool) -> int:
+    """
+    pre: 0 <= ai < N_ADDERS
+    post: _ != 0
+    """
+    return origin_first_check(ai, before, named, second_too)
